@@ -271,6 +271,12 @@ static Verdict run_case(const OCase &c) {
   int spa = c.role == 0 ? c.pa : c.sp, spb = c.role == 0 ? c.pb : c.sp;
   int mpa = c.role == 1 ? c.pa : c.mp, mpb = c.role == 1 ? c.pb : c.mp;
   int dpa = c.role == 2 ? c.pa : c.dp, dpb = c.role == 2 ? c.pb : c.dp;
+  // outside the domain in which the library draws a transformed image at all (it drops the whole request, C04), a
+  // transformed presentation and a solid one are not presentations of the same picture
+  if (!transform_in_domain(c.sc.src, c.sc.sx, c.sc.sy, c.sc.w, c.sc.h) || !transform_in_domain(c.sc.mask, c.sc.mx, c.sc.my, c.sc.w, c.sc.h)) {
+    v.label("skipped_request_outside_representable_range");
+    return v;
+  }
   Rendered A = render(c, spa, mpa, dpa), B = render(c, spb, mpb, dpb);
   if (!A.ok || !B.ok) {
     v.fail("image creation failed");
